@@ -1156,6 +1156,52 @@ def gen_relational(repo, report, only):
     return open(os.path.join(os.path.dirname(os.path.abspath(__file__)), 'templates', only + '.v')).read()
 
 
+# ----------------------------------------------------------------------------------------------------
+# 7. fingerprints of the functions that hand-written parts of the model mirror line by line: the model is compared with them by the
+#    correspondence checks; the fingerprint (sha256 of the normalised body, docstrings and comments dropped) is pinned by a theorem of
+#    every property that relies on that part, so that an edit of the function re-opens those properties even when no sampled case differs
+# ----------------------------------------------------------------------------------------------------
+SHAPE_FILES = {
+    'VmGen': [('engine/vm.py', None, 'execute')],
+    'BagGen': [('containers/base.py', None, 'connect_bags'), ('containers/base.py', None, 'normalize_bag'), ('containers/base.py', 'EdgesBag', 'freeze'),
+               ('containers/base.py', 'EdgesBag', '__init__')],
+    'OptGen': [('containers/reversible.py', None, 'detect_optionals'), ('containers/reversible.py', 'ReversibleContainer', '__init__'),
+               ('engine/compiler.py', 'GraphCompiler', '_validate_optionals'), ('engine/compiler.py', 'GraphCompiler', 'compile'),
+               ('engine/compiler.py', 'GraphCompiler', '_compile')],
+    'CtxGen': [('containers/context.py', 'BagContext', 'reverse'), ('containers/context.py', 'ChainContext', 'reverse'),
+               ('containers/context.py', 'IdentityContext', 'reverse'), ('containers/base.py', 'EdgesBag', 'loopback'),
+               ('containers/base.py', None, 'function_to_bag')],
+}
+
+
+def gen_shapes(repo, report, only):
+    out = [f'(* GENERATED by tools/translate.py ({only}): fingerprints of functions the hand-written model mirrors. Do not edit. *)',
+           'From Connectome Require Import Values.', '']
+    cache = {}
+    for rel, cls, fname in SHAPE_FILES[only]:
+        path = os.path.join(repo, 'connectome', rel)
+        if path not in cache:
+            cache[path] = parse(path)
+        src, tree = cache[path]
+        scope = tree.body
+        if cls is not None:
+            c = find_class(tree, cls)
+            if c is None:
+                fail(path, tree, f'class {cls} not found')
+            scope = c.body
+        fn = find_func(scope, fname)
+        if fn is None:
+            fail(path, tree, f'{cls + "." if cls else ""}{fname} not found')
+        stripped = _StripProgress().visit(ast.parse(ast.unparse(fn)).body[0])
+        h = hashlib.sha256((ast.unparse(stripped.args) + '|' + norm(stripped.body)).encode()).hexdigest()[:16]
+        name = f'{cls + "." if cls else ""}{fname}'
+        report['kernels'].append({'kernel': name, 'file': rel, 'line': fn.lineno, 'sha256_16': sha(src, fn)})
+        ident = 'shape_' + (cls + '_' if cls else '') + ('init' if fname == '__init__' else ('priv_' + fname.lstrip('_') if fname.startswith('_') else fname))
+        out.append(f'(* {rel}:{fn.lineno} {name} *)')
+        out.append(f'Definition {ident} : string := "{h}".')
+    return '\n'.join(out) + '\n'
+
+
 def write_if_changed(path, text):
     if os.path.exists(path) and open(path).read() == text:
         return False
@@ -1180,6 +1226,7 @@ def main():
     for fname, fn in (('EdgesGen.v', gen_edges), ('NodeHashGen.v', gen_nodehash), ('AntiSetGen.v', gen_antiset),
                       ('ColumnsGen.v', gen_columns)) + tuple(
             (f'{m}.v', (lambda repo_, report_, m_=m: gen_relational(repo_, report_, m_))) for m in REL_FILES) + tuple(
+            (f'{m}.v', (lambda repo_, report_, m_=m: gen_shapes(repo_, report_, m_))) for m in SHAPE_FILES) + tuple(
             (f'{m}.v', (lambda repo_, report_, m_=m: gen_misc(repo_, report_, m_))) for m in MISC_FILES):
         try:
             text = fn(repo, report)
